@@ -205,7 +205,7 @@ def _inversion_check(mask, data, noise, kernel, objects, diag):
                 noreg += list(range(pos, pos + o.params))
             pos += o.params
         B, D, F = normal_equations(mask, data, noise, kernel, mats, noreg, diag)
-        dv = np.asarray(inv.data_vector, dtype=float)
+        dv = np.array(inv.data_vector, dtype=float)              # a copy: the cached array itself is re-read after the solve
         if not close(dv, D, scale=max(float(np.abs(B).max() * np.abs(data[~mask] / noise[~mask] ** 2).sum()), 1e-300)):
             return "%s: data_vector != B^T N^-1 d (max err %.3g): got %r want %r" % (name, maxerr(dv, D), dv, D)
         cm = np.array(inv.curvature_matrix, dtype=float)
@@ -229,6 +229,8 @@ def _inversion_check(mask, data, noise, kernel, objects, diag):
                 rec = mapped = None     # the solver's own rejection (singular system / constant solution): outside C04
         # the normal equations are what the inversion reports at any time, not only before it has been solved
         dv2, cm2 = np.asarray(inv.data_vector, dtype=float), np.asarray(inv.curvature_matrix, dtype=float)
+        if not close(dv2, D, scale=max(float(np.abs(B).max() * np.abs(data[~mask] / noise[~mask] ** 2).sum()), 1e-300)):
+            return "%s: data_vector read again after reconstruction and mapped data is no longer B^T N^-1 d (max err %.3g): %r vs %r" % (name, maxerr(dv2, D), dv2, D)
         if not (np.array_equal(dv2, dv) and np.array_equal(cm2, cm)):
             return ("%s: data_vector / curvature_matrix read again after regularization_matrix, reconstruction and mapped data differ from the "
                     "first read (max %.3g / %.3g): the curvature matrix is then no longer B^T N^-1 B" % (name, maxerr(dv2, dv), maxerr(cm2, cm)))
